@@ -26,6 +26,7 @@ the specification's fragment; `captureSlotsInUse` keeps both of their slots).
 -/
 import RegexVerif.Lemmas.Quick
 import RegexVerif.Lemmas.Api
+import RegexVerif.Lemmas.StringFilter
 
 namespace RegexVerif.Props.C02
 open RegexVerif RegexVerif.Spec RegexVerif.Scan RegexVerif.Api RegexVerif.Lemmas.Scan
@@ -339,5 +340,90 @@ example : gPrograms.Agree false 2 ∧ FilterSound (gPrograms.full.attempt 0) 2 (
   simp only [Option.some.injEq] at hc
   have : p = 0 := by omega
   subst this; decide
+
+/-! ## ─── C. the entry points with the CONCRETE raw-string prefix filter (slice "strfilter") ───
+
+Part B takes the filter as an abstract function with the hypothesis `FilterSound`.  Here the filter is the
+model of `stringprefixfilter.go` (`Model/StringFilter.lean`): `newStringPrefixFilter` on the record the compiled
+program publishes, run on the BYTES of the input, its candidate mapped to a rune index as the entry points do
+(`StringFilter.runeFilter`: `findStringMatchStart(s, -1)`, then `decodeStringWithStart` / `getRunesAndStart`).
+The hypothesis left is about the pattern, not about the filter: the facts of the find mode hold at every match
+(`StrFactsSound` — C04's side; leg H of C04 per case). -/
+section ConcreteFilter
+open RegexVerif.Utf8 RegexVerif.StringFilter RegexVerif.Lemmas.StringFilter
+
+/-- **The concrete filter satisfies `FilterSound`.**  For every input (bytes) and every record: if the facts of
+    the record's find mode hold at every successful attempt on the decoded runes, then the filter
+    `newStringPrefixFilter` installs — or the absence of one — seen from the rune side, only skips rune positions at
+    which the program fails and says "no" only when it fails everywhere. -/
+theorem concrete_filter_sound (code : CodeB) (input : List Nat) (attempt : Nat → Option (Nat × Nat))
+    (hF : ∀ o, code.opts = some o → StrFactsSound o input attempt) :
+    FilterSound attempt (decodeB input).length (runeFilter ((newStringPrefixFilter code).map (·.2)) input) := by
+  apply runeFilter_sound
+  intro f hf
+  cases hn : newStringPrefixFilter code with
+  | none => rw [hn] at hf; simp at hf
+  | some kf =>
+    rw [hn] at hf
+    simp only [Option.map_some, Option.some.injEq] at hf
+    subst hf
+    obtain ⟨o, ho⟩ := installed_has_opts code kf hn
+    exact dispatch_sound code o kf.1 kf.2 input attempt ho hn (hF o ho)
+
+/-- **All entry points agree, with the concrete filter**: `api_agree` with the hypothesis `FilterSound` discharged.
+    `input` is the string as bytes, `n` the number of runes it decodes to (one per invalid byte), the programs
+    run on those runes; the string entry points (`MatchString`, `FindStringMatch`, `FindAllStringIndex`, the
+    `Split` / adapter / `ReplaceFunc` enumeration) start from the candidate of the byte-level filter and report
+    the matches of the rune entry points (byte offsets through the mappers of C08). -/
+theorem api_agree_concrete (P : Programs) (code : CodeB) (input : List Nat) (rtl : Bool)
+    (hP : P.Agree rtl (decodeB input).length)
+    (hO : rtl = false → OriginFree P.full (decodeB input).length)
+    (hF : rtl = false → ∀ o, code.opts = some o → StrFactsSound o input (P.full.attempt 0)) :
+    let n := (decodeB input).length
+    let filter := runeFilter ((newStringPrefixFilter code).map (·.2)) input
+    matchRunes P rtl n = (findRunesMatch P rtl n).isSome ∧
+    matchString P filter rtl n = matchRunes P rtl n ∧
+    findStringMatch P filter rtl n = findRunesMatch P rtl n ∧
+    (∀ k, findAllRunes P rtl n k = findAllSpec rtl k (iterate P.full rtl n)) ∧
+    (∀ k, findAllString P filter rtl n k = findAllRunes P rtl n k) ∧
+    (∀ count, replaceEnum P rtl n count = takeK count (iterate P.full rtl n)) ∧
+    enumString P filter rtl n = iterate P.full rtl n :=
+  api_agree P _ rtl _ hP hO (fun hr => concrete_filter_sound code input (P.full.attempt 0) (hF hr))
+
+/-- the string "xaba" as bytes (the programs `xabaPrograms` of part B run on its four runes), and the record of a
+    pattern whose matches all start with "ab" and are at least 3 runes long -/
+def cfInput : List Nat := [120, 97, 98, 97]
+def cfCode : CodeB := { opts := some { mode := .leadingStringLtr, minLen := 3, leadingPrefix := [97, 98] } }
+
+example : (decodeB cfInput).length = 4 ∧ runesOf cfInput = [120, 97, 98, 97] := by decide
+-- the filter `newStringPrefixFilter` installs proposes byte 1 = rune 1
+example : runeFilter ((newStringPrefixFilter cfCode).map (·.2)) cfInput 0 = some 1 := by decide
+-- the facts of the record hold for `(a)(b)\1` on "xaba" (the only successful attempt is at 1) …
+theorem cf_facts : StrFactsSound { mode := .leadingStringLtr, minLen := 3, leadingPrefix := [97, 98] } cfInput (xabaPrograms.full.attempt 0) := by
+  have honly : ∀ p, p ≤ 4 → xabaPrograms.full.attempt 0 p ≠ none → p = 1 := by
+    intro p hp h
+    have : p = 0 ∨ p = 1 ∨ p = 2 ∨ p = 3 ∨ p = 4 := by omega
+    rcases this with rfl | rfl | rfl | rfl | rfl
+    · exact absurd (by decide) h
+    · rfl
+    · exact absurd (by decide) h
+    · exact absurd (by decide) h
+    · exact absurd (by decide) h
+  have hlen : (decodeB cfInput).length = 4 := by decide
+  refine ⟨?_, ?_⟩
+  · intro p i l hp h
+    rw [hlen] at hp ⊢
+    have := honly p hp (by rw [h]; simp)
+    subst this; simp
+  · intro p hp h
+    rw [hlen] at hp
+    have := honly p hp h
+    subst this
+    unfold runeOcc; decide
+-- … so every string entry point reports the match "aba" at 1 through the concrete filter
+example : findStringMatch xabaPrograms (runeFilter ((newStringPrefixFilter cfCode).map (·.2)) cfInput) false 4 = some ⟨1, 3, 4⟩ ∧
+    matchString xabaPrograms (runeFilter ((newStringPrefixFilter cfCode).map (·.2)) cfInput) false 4 = true := ⟨by decide, by decide⟩
+
+end ConcreteFilter
 
 end RegexVerif.Props.C02
